@@ -80,4 +80,53 @@ theorem C04_choice_static_assert_counterexample :
   rw [h1, h2, h3, h4]
   simp [isConstType, cppChoice, intRanges, rangeOf, hullOf, cppTypeForRange, resultType, two63, two64]
 
+/-- **The template arguments printed in the header are the types the evaluation model computes
+in.**  `nodeSig tys` is what `model_c05 SIG` answers and what the harness compares with the
+`<IntermediateT, ResultT, ArgTs…>` of every `Sum/Difference/Product/Maximum/Equal/…` call found in
+the generated header text.  If it names the integer type `it` as `IntermediateT`, then `it` is
+`_cpp_integer_type_for_range` of the hull of all integer clauses, the remaining names are the
+`_cpp_basic_type_for_expression` of result and operands, and `cppOp` — the evaluation step of
+`C04_no_overflow` — casts every operand to exactly that `it`, computes in it and casts to the
+result type. -/
+theorem C04_header_types (ty : AType) (args : List AType) (it : CType) (ns : List TName)
+    (h : nodeSig (ty :: args) = some (.int it, ns)) :
+    (∃ rs lo hi, intRanges (ty :: args) = some rs ∧ hullOf rs = some (lo, hi) ∧
+      cppTypeForRange lo hi = some it) ∧
+    argTNames (ty :: args) = some ns ∧
+    (∀ vs res, cppOp (ty :: args) vs res =
+      if !(vs.all (castOk it)) then .overflow
+      else match res with
+        | none => .stuck
+        | some v => if !(castOk it v) then .overflow else castResult ty v) := by
+  unfold nodeSig at h
+  split at h
+  · rename_i rs names hr hn
+    split at h
+    · rename_i lo hi hh
+      split at h
+      · cases h
+      · simp only [Option.some.injEq, Prod.mk.injEq] at h
+        obtain ⟨h1, h2⟩ := h
+        subst h2
+        have ht : cppTypeForRange lo hi = some it := by
+          unfold tnameOfRange at h1
+          split at h1
+          · rename_i t ht; cases h1; exact ht
+          · cases h1
+        refine ⟨⟨rs, lo, hi, hr, hh, ht⟩, hn, ?_⟩
+        intro vs res
+        cases res <;> simp [cppOp, hr, hh, ht]
+    · simp only [Option.some.injEq, Prod.mk.injEq] at h
+      obtain ⟨h1, _⟩ := h
+      split at h1 <;> cases h1
+  · cases h
+
+/-- non-vacuity: `Sum<int64_t, int64_t, int32_t, int32_t>` for `a0 + a1` over `UInt:8 a0`,
+    `Int:32 a1` (the call found in the generated header) -/
+example :
+    nodeSig [.int ⟨.fin (-2147483648), .fin 2147483902, .fin 1, .fin 0⟩,
+             .int ⟨.fin 0, .fin 255, .fin 1, .fin 0⟩,
+             .int ⟨.fin (-2147483648), .fin 2147483647, .fin 1, .fin 0⟩] =
+      some (.int .i64, [.int .i64, .int .i32, .int .i32]) := by decide +kernel
+
 end Emboss.Bounds
